@@ -161,7 +161,12 @@ class SumAggregator:
         where I'm sure that there exists at least one"""
         return self._atleast_preds
 
-    def _get_trigger(self, minimize_var: AST, body: list[AST]) -> Optional[tuple[AST, int, AnnotatedPredicate]]:
+    def _get_trigger(
+        self, minimize_var: AST, body: list[AST], tuple_terms: list[AST]
+    ) -> Optional[tuple[AST, int, AnnotatedPredicate]]:
+        tuple_vars: set[AST] = set()
+        for term in tuple_terms:
+            tuple_vars.update(collect_ast(term, "Variable"))
         for lit in body:
             if is_conditional(lit):  # currently not supported, happens in soft constraints
                 return None
@@ -180,6 +185,15 @@ class SumAggregator:
                             continue
                         anon_are_anonymous = False
                     if anon_are_anonymous and trigger_index is not None:
+                        # the variables identifying the group have to be part of the tuple,
+                        # otherwise equal weights of different groups are counted only once
+                        group_vars: set[AST] = set()
+                        for i, arg in enumerate(symbol.arguments):
+                            if i not in next_anon_pred.annotated_positions:
+                                group_vars.update(collect_ast(arg, "Variable"))
+                        group_vars.discard(Variable(LOC, "_"))
+                        if not group_vars.issubset(tuple_vars):
+                            return None
                         return (lit, trigger_index, next_anon_pred)
         return None
 
@@ -213,7 +227,7 @@ class SumAggregator:
                     newelements.append(elem)
                     continue
 
-                trigger = self._get_trigger(elem.terms[0], elem.condition)
+                trigger = self._get_trigger(elem.terms[0], elem.condition, list(elem.terms[1:]))
 
                 if trigger is None:
                     newelements.append(elem)
@@ -312,7 +326,7 @@ class SumAggregator:
             others.extend(collect_ast(cond, "Variable"))
         if others.count(minimize_var) != 1:
             return [minimize]
-        trigger = self._get_trigger(minimize_var, minimize.body)
+        trigger = self._get_trigger(minimize_var, minimize.body, list(minimize.terms))
 
         if trigger is None:
             return [minimize]
